@@ -97,6 +97,76 @@ def gen(rng, tier):
                 hist.append(dict({"ev": "persist", "var": o, "entry": rng.choice(["method", "dask"]), "out": f"p{k}"},
                                  **H.rand_sched(rng)))
                 hist.append(dict({"ev": "compute", "var": f"p{k}", "entry": "method"}, **H.rand_sched(rng)))
+    # in-place tail: x is modified in place AFTER its keys / lowered graph / delayed blocks have been
+    # read (every memo on the collection is warm), then every entry point is asked again; the
+    # reference from here on is x.compute() of the modified x (the statement's own anchor)
+    X = ctx.env.vars[x]
+    if (rng.random() < 0.35 and G.known(X) and X.ndim >= 1 and 0 not in X.shape and X.dtype.kind in "fiu"
+            and all(int(d) <= 64 for d in X.shape)):
+        from . import c11
+
+        for _ in range(rng.randint(1, 3)):
+            w = rng.random()
+            if w < 0.3:
+                hist.append({"ev": "inspect", "var": x, "acc": ["keys"] + rng.sample(H.ACCESSORS, 1)})
+            elif w < 0.55:
+                hist.append(dict({"ev": "compute", "var": x, "entry": "delayed"}, **H.rand_sched(rng)))
+            elif w < 0.75:
+                hist.append(dict({"ev": "compute", "var": x, "entry": rng.choice(["method", "dask1"])}, **H.rand_sched(rng)))
+            elif w < 0.9:
+                hist.append({"ev": "graph", "var": x})
+            else:
+                k += 1
+                hist.append(dict({"ev": "persist", "var": x, "entry": "method", "out": f"p{k}"}, **H.rand_sched(rng)))
+        shape = tuple(int(d) for d in X.shape)
+        if rng.random() < 0.8:
+            key = None
+            for _ in range(8):
+                key = c11.gen_key(rng, shape, x, ["basic", "basic", "list", "npmask", "daskmask"])
+                try:
+                    # validity probe on a copy: the in-place step must be one dask_array accepts
+                    import warnings
+
+                    with warnings.catch_warnings():
+                        warnings.simplefilter("ignore")
+                        y_ = X.copy()
+                        m_ = H.Machine({"recipe": recipe}, {}, [], ID)
+                        m_.pool = {x: y_}
+                        y_[m_.resolve_key(key)] = 1
+                        _ = y_.chunks
+                    break
+                except Exception:  # noqa: BLE001
+                    key = None
+            if key is not None:
+                hist.append({"ev": "setitem", "var": x, "key": key, "value": rng.choice([0, -1, 7, 3])})
+        else:
+            uf = rng.choice(["add", "multiply", "negative", "subtract"])
+            hist.append({"ev": "ufunc_out", "var": x, "ufunc": uf, "args": [x] if uf == "negative" else [x, rng.choice([1, 2, 3])]})
+        tail = ["compute:delayed", "compute:dask1", "compute_many", "persist:method", "persist:dask", "doptimize", "optimize",
+                "compute:delayed", "inspect-keys"]
+        after = []
+        for e in rng.sample(tail, rng.randint(2, 5)):
+            sched = H.rand_sched(rng)
+            k += 1
+            if e.startswith("compute:"):
+                hist.append(dict({"ev": "compute", "var": x, "entry": e.split(":")[1]}, **sched))
+            elif e == "compute_many":
+                vs = [x] + companions[:1]
+                rng.shuffle(vs)
+                hist.append(dict({"ev": "compute_many", "vars": vs}, **sched))
+            elif e.startswith("persist:"):
+                hist.append(dict({"ev": "persist", "var": x, "entry": e.split(":")[1], "out": f"p{k}"}, **sched))
+                after.append(f"p{k}")
+            elif e == "doptimize":
+                hist.append({"ev": "doptimize", "var": x, "out": f"d{k}"})
+                after.append(f"d{k}")
+            elif e == "optimize":
+                hist.append({"ev": "optimize", "var": x, "out": f"o{k}"})
+                after.append(f"o{k}")
+            else:
+                hist.append({"ev": "inspect", "var": x, "acc": ["keys", "name", "chunks"]})
+        for r_ in after:
+            hist.append(dict({"ev": "compute", "var": r_, "entry": rng.choice(["method", "dask1", "delayed"])}, **H.rand_sched(rng)))
     return {"recipe": recipe, "x": x, "targets": [x] + companions + follow, "history": hist}
 
 
@@ -156,6 +226,33 @@ def execute(case, stats, log):
                 except Exception as e:  # noqa: BLE001
                     raise Invalid(f"follow-on input build failed: {e}")
         elif var is not None and ev["ev"] != "build" and var not in m.pool:
+            continue
+        if ev["ev"] in ("setitem", "ufunc_out"):
+            # in-place operation on x: from here on the reference is x.compute() of the modified x;
+            # collections returned by earlier entry points keep the old value and are not compared any more
+            try:
+                m.apply(ev)
+            except Violation:
+                raise
+            except Exception as e:  # noqa: BLE001
+                raise Invalid(f"in-place op rejected: {type(e).__name__}: {str(e)[:200]}")
+            try:
+                ref = m.compute(m.pool[var], {"policy": "fifo"})
+            except Exception as e:  # noqa: BLE001
+                raise Invalid(f"x.compute() after the in-place op raises (C11's matter): {type(e).__name__}: {str(e)[:200]}")
+            for v_ in list(m.pool):
+                # earlier returned collections of x keep the old value; x[:] / +x are the SAME object as x
+                # (aliases under another program name): neither is compared with its own pristine any more
+                if v_ != var and (m.origin.get(v_) == m.origin.get(var) or m.pool[v_] is m.pool[var]):
+                    m.origin[v_] = None
+            org_ = m.origin.get(var)
+            m.pristine[org_] = dict(m.pristine.get(org_) or {}, value=ref, error=None)
+            first.pop(org_, None)
+            for f_ in list(m.pristine):
+                if f_ != org_ and org_ in {case["recipe"]["steps"][j]["out"] for j in G.needed_steps(case["recipe"], f_)}:
+                    m.pristine[f_] = None  # programs built on x: their pristine value is about the unmodified x
+            stats["probe.inplace_tail"] = stats.get("probe.inplace_tail", 0) + 1
+            log.append([i, ev["ev"], var, fp(ref)])
             continue
         org = m.origin.get(var) if var else None
         if ev["ev"] == "build":
